@@ -1696,7 +1696,8 @@ class InTablePhase(Phase):
 
     # processing methods
     def processEOF(self):
-        if self.tree.openElements[-1].name != "html":
+        if (self.tree.openElements[-1].name != "html" or
+                self.tree.openElements[-1].namespace != self.tree.defaultNamespace):
             self.parser.parseError("eof-in-table")
         else:
             assert self.parser.innerHTML
@@ -2020,8 +2021,9 @@ class InTableBodyPhase(Phase):
 
     # helper methods
     def clearStackToTableBodyContext(self):
-        while self.tree.openElements[-1].name not in ("tbody", "tfoot",
-                                                      "thead", "html"):
+        while (self.tree.openElements[-1].namespace != self.tree.defaultNamespace or
+               self.tree.openElements[-1].name not in ("tbody", "tfoot",
+                                                       "thead", "html")):
             # self.parser.parseError("unexpected-implied-end-tag-in-table",
             #  {"name": self.tree.openElements[-1].name})
             self.tree.openElements.pop()
